@@ -758,4 +758,15 @@ def rule_j(ctx):
 
 
 
-RULES = [('C13.a', rule_a), ('C13.b', rule_b), ('C13.c', rule_c), ('C13.d', rule_d), ('C13.d+C13.e', rule_e), ('C13.f', rule_f), ('C13.g', rule_g), ('C12.l', rule_error_conversion), ('C13.h', rule_h), ('C13.i', rule_i), ('C13.j', rule_j)]
+
+def rule_finished_streams_are_not_cancelled_again(ctx):
+    """(shared C20.d)  finish_stream releases by id, not by handler: an adapter that cancels a stream which has already
+    ended (its task woken by the disposal that follows on_completed) sends a CANCEL for, and unregisters, whatever
+    stream holds that id by then - after wrap-around a live one.  The Rx adapters cancel from their subscription task
+    only while the stream is not done (rules/c20.py)."""
+    from .c20 import rule_d as c20d
+    c20d(ctx)
+
+
+
+RULES = [('C13.a', rule_a), ('C13.b', rule_b), ('C13.c', rule_c), ('C13.d', rule_d), ('C13.d+C13.e', rule_e), ('C13.f', rule_f), ('C13.g', rule_g), ('C12.l', rule_error_conversion), ('C13.h', rule_h), ('C13.i', rule_i), ('C13.j', rule_j), ('C20.d', rule_finished_streams_are_not_cancelled_again)]
